@@ -17,13 +17,13 @@ CHECKS = {
          "Turn structure compared with shadow counters on every transition of games with passes at steps 1-3, fourth steps, captures, from parsed / injected / set-up starts and move numbers up to 10^6.",
          "Move-number overflow near usize::MAX is outside the statement and not exercised.", "§6 C03"),
  "C05": ("runtime monitor: exact-board shadow history over whole games (never cleared)",
-         "Every completed turn of repetition-heavy games (reverser endgames, scripted three-fold cyclers) was judged against an exact-board history; third repetitions were attempted thousands of times by pass and by fourth step.",
-         "Bounded restatement: games up to 400 turns (2000 in thorough); exact boards, no hashes, in the oracle.", "§6 C05"),
+         "Every completed turn of repetition-heavy games (reverser endgames, scripted three-fold cyclers, saturated-neighbourhood scripts, cyclers from the first position after a real setup, long cyclers whose third occurrence comes up to 684 / 2404 turns after the first) was judged against an exact-board history; third repetitions were attempted thousands of times by pass and by fourth step.",
+         "Bounded restatement: games up to ~700 turns (quick) / ~2400 turns (thorough); exact boards, no hashes, in the oracle.", "§6 C05"),
  "C06": ("runtime monitor: ordered list comparison valid_actions vs filtered valid_actions_no_rep at every state",
          "At every visited state the offered list equalled, in order, the rule-only list minus exactly the turn-enders that the exact-board history forbids.",
          "Same bounded histories as C05; the oracle never forgets history at captures, so the capture shortcut is checked too.", "§6 C06"),
  "C07": ("runtime monitor: cross-query consistency (is_terminal / has_move / can_pass vs the action lists)",
-         "All summary queries agreed with the action lists on every visited setup and play state, including hundreds of mid-turn dead ends where every remaining action is withheld.",
+         "All summary queries agreed with the action lists on every visited setup and play state, including thousands of constructed mid-turn states where the repetition rules withhold every turn-ender (nothing left / only a pull left / beside a pushable enemy).",
          "Dead ends are rare; the floors require that the run actually met them.", "§6 C07"),
  "C08": ("runtime monitor: from-scratch hash by two routes, history multiset containment, transposition pairs",
          "Incremental hashes equalled two independent from-scratch computations on every visited state; recorded turn-start hashes, the hooked stored hash, equal-state pairs by different paths and setup-vs-parse were compared.",
@@ -44,7 +44,7 @@ CHECKS = {
 
 CHECKS.update({
  "C04": ("runtime monitor: reference result function (official precedence) at every turn start; terminal-condition constructor workload",
-         "All 18 consistent combinations of the five conditions x side x every goal square were constructed and judged, plus mid-turn goal/elimination states and setup states.",
+         "All 18 consistent combinations of the five conditions x side x every goal square were constructed and judged, plus barely-mobile movers whose only legal steps are pushes (per pushed type and direction), mid-turn goal/elimination states and setup states.",
          "Trusts the reference result function; immobilised positions come from rejection sampling against the model.", "§6 C04"),
  "C09": ("runtime monitor: reference setup model over scripted and random placement orders",
          "All 971 non-final count vectors per colour and 10^4-10^6 random orders: offered placements, target square, piece, side/phase switch and the fresh play start all as stated.",
@@ -65,10 +65,10 @@ CHECKS.update({
          "10^7-10^9 guarded engine calls over all play and setup families, turn trees and sweeps returned normally.",
          "Only the calls the statement lists are made (no step-indexed query in setup, no placement_bit in play).", "§6 C19"),
  "C18": ("build-time auto-trait probe + runtime result oracle under multi-threaded stress + ThreadSanitizer (-Zbuild-std) + Miri many-seeds on a bare workload",
-         "The probe crate requiring Send + Sync compiled; thousands of rounds of 4-32 threads expanding shared states (Arc / borrowed with droppers / moved clones) all equalled the sequential expansion with the root unchanged; TSan and Miri were silent on the same workload.",
+         "The probe crate requiring Send + Sync compiled; thousands of rounds of 4-32 threads expanding shared states (Arc / borrowed with droppers / moved clones; incl. roots whose queries do several history look-ups with different answers, hammered 40x per thread) all equalled the sequential expansion with the root unchanged; cold-start processes, simultaneous last-owner drops with stack-span probes, TSan and Miri (two root kinds) were silent.",
          "Interleavings are sampled, not enumerated; the 'for all client programs' half is a compile-time fact observed through a build.", "§6 C18"),
  "C20": ("subprocess monitor: exit status of children playing 1.5e5-2e6 capture-free turns on a 2 MiB thread + VmStk high-water mark vs history length, two build profiles",
-         "Children survived query/clone/drop after up to 4e5 (quick) / 2e6 (thorough) turns on the default 2 MiB stack and stack use did not grow between 1e3 and 4e5 turns.",
+         "Children survived query / clone / capture / drop (also during panic unwinding, also by simultaneous last owners) after up to 4e5 (quick) / 8e6 (thorough) turns on the default 2 MiB stack, and stack use did not grow between 1e3 and 4e5 turns (VmStk) nor between 500 and 4000 nodes (drop probes).",
          "Bounded restatement of 'for all lengths'; a child that dies for another reason makes the run inconclusive.", "§6 C20"),
 })
 
